@@ -420,6 +420,11 @@ impl J1939Unit for EngineManagementSystem {
 
                     return Ok(());
                 }
+                EngineMessage::TorqueSpeedControl(_control) => {
+                    // TSC1 is a command *to* the engine controller and is accepted from any
+                    // source address: it is not a sign of life of the unit.
+                    return Ok(());
+                }
                 EngineMessage::Shutdown(_shutdown) => {
                     // TODO: Handle shutdown message, set state to stopping
 
